@@ -7,7 +7,9 @@
 mod common;
 mod fwsim;
 mod mach;
+mod props_budget;
 mod props_fw;
+mod props_more;
 mod props_ref;
 mod refmodel;
 mod sup;
@@ -18,7 +20,13 @@ fn engine_for(prop: &str) -> Option<Box<dyn Engine>> {
     use props_fw::FwEngine;
     Some(match prop {
         "C01" => Box::new(FwEngine(props_fw::C01)),
+        "C02" => Box::new(FwEngine(props_budget::C02)),
+        "C03" => Box::new(FwEngine(props_budget::C03)),
         "C04" => Box::new(FwEngine(props_fw::C04)),
+        "C07" => Box::new(FwEngine(props_more::C07)),
+        "C08" => Box::new(FwEngine(props_more::C08)),
+        "C09" => Box::new(FwEngine(props_more::C09)),
+        "C10" => Box::new(FwEngine(props_more::C10)),
         "C05" => Box::new(FwEngine(props_ref::C05)),
         _ => return None,
     })
